@@ -9,6 +9,7 @@ Two modes, chosen per seed:
 """
 from __future__ import annotations
 
+import asyncio
 import random
 
 from checks import c07
@@ -197,7 +198,73 @@ def execute_direct(plan: dict, ch):
                 ctx.violate("C05.inbound-content", "direct", f"direct: cuts={cuts[:8]} decoded {len(got)} messages, expected {len(expected)} ({nframes} frames)")
             ctx.event("seg", len(cuts), len(got))
 
+    # ---- outbound, same mode: a sequence of payloads of boundary lengths on ONE session, decoded in order ---------
+    r = random.Random(ch.seed ^ 0x5EED)
+    lengths = [r.choice(SIZES + [0, 2, 1022, 1026, 2046, 2050, 6144, r.randrange(1, 7000)]) for _ in range(r.randint(3, 9))]
+
+    class _Tr:
+        def __init__(self):
+            self.calls: list[bytes] = []
+
+        def is_closing(self):
+            return False
+
+        def writelines(self, datas):
+            self.calls.append(b"".join(bytes(d) for d in datas))
+
+        def write(self, d):
+            self.calls.append(bytes(d))
+
+        def write_eof(self):
+            pass
+
+        def close(self):
+            pass
+
+    async def outbound():
+        from refimpl import crypto as RC
+
+        c2a = ch.nbytes("direct.c2a", 32)
+        proto = SecureHomeKitProtocol(c07._ConnStub([]), bytes(32), c2a)
+        tr = _Tr()
+        proto.transport = tr
+        proto.loop = loop
+        dec = RC.FrameCodec(c2a)
+        for n in lengths:
+            payload = ch.nbytes("direct.payload", n)
+            k0 = len(tr.calls)
+            task = loop.create_task(proto.send_bytes(payload))
+            await asyncio.sleep(0)
+            await asyncio.sleep(0)
+            task.cancel()
+            try:
+                await task
+            except BaseException:  # noqa: BLE001
+                pass
+            wire = b"".join(tr.calls[k0:])
+            ctx.obligations += 1
+            try:
+                frames = dec.feed(wire)
+            except ValueError as e:
+                ctx.violate("C05.outbound-undecodable", "direct", f"payload lengths so far {lengths}: frames of the {n}-byte payload rejected by the in-order reference deframer: {e}")
+                return
+            if dec.buf:
+                ctx.violate("C05.outbound-undecodable", "direct-partial", f"{n}-byte payload: {len(dec.buf)} stray bytes after the last complete frame")
+                return
+            sizes = [len(f) for f in frames]
+            if b"".join(frames) != payload:
+                ctx.violate("C05.outbound-content", "direct", f"{n}-byte payload: frames {sizes} do not carry the payload")
+            elif sizes != [1024] * (n // 1024) + ([n % 1024] if n % 1024 else []):
+                ctx.violate("C05.frame-size", "direct", f"{n}-byte payload sent as frames {sizes[:8]} (not maximal 1024-byte frames + remainder)")
+            elif len(tr.calls) - k0 > 1:
+                ctx.violate("C09.single-call", "direct", f"{n}-byte payload written with {len(tr.calls) - k0} transport calls")
+        ctx.probe("direct_outbound_payloads", len(lengths))
+
     loop.run_sim(main())
+    loop2 = SimLoop()
+    ctx.loop = loop2
+    loop = loop2
+    loop2.run_sim(outbound())
     ctx.probe("direct_segmentations", len(plan["ops"]))
     ctx.probe("direct_frames", nframes)
     ctx.state("direct", plan["frame_policy"], min(nframes, 8))
